@@ -28,6 +28,7 @@ class Observer:
         self.in_cleanup = {}
         self.last_req_ok = {}
         self.announcing = {}
+        self.ann_end_emitted = {}
 
     # -- helpers ------------------------------------------------------
     def emit(self, ti, label, t=None):
@@ -101,6 +102,12 @@ class Observer:
                             obs.emit(coord.transfer_id, 'cbLock %d' % obs.who(coord.transfer_id))
 
                     def __exit__(s2, *a):
+                        # the model's annEnd is the release of the callbacks lock: stamp it before
+                        # the release (which is a scheduling point) lets the next announcer in
+                        key = (coord.transfer_id, obs.me())
+                        if obs.announcing.get(key):
+                            obs.emit(coord.transfer_id, 'annEnd %d' % obs.who(coord.transfer_id))
+                            obs.ann_end_emitted[key] = True
                         cb_inner.release()
 
                     def acquire(s2, *a, **k):
@@ -201,7 +208,8 @@ class Observer:
                     super().announce_done()
                 finally:
                     obs.announcing.pop((self.transfer_id, obs.me()), None)
-                    obs.emit(self.transfer_id, 'annEnd %d' % who)
+                    if not obs.ann_end_emitted.pop((self.transfer_id, obs.me()), False):
+                        obs.emit(self.transfer_id, 'annEnd %d' % who)
 
             def _run_failure_cleanups(self):
                 me = obs.me()
